@@ -1314,6 +1314,28 @@ impl World {
     pub fn on_snapshot_installed(&mut self, i: usize, s: &Snapshot, ctx: &mut Ctx) {
         let m = s.get_metadata();
         let id = i as u64 + 1;
+        // C06: installing a snapshot must not put the log behind an acknowledgement the node
+        // released to the leader of its current term (the entry is still the leader's: same
+        // term, and entries of one leader never conflict)
+        {
+            let cur_term = self.live(i).unwrap().rn.raft.term;
+            let lost = self.nodes[i]
+                .g
+                .acked
+                .iter()
+                .find(|(mt, idx, et)| *mt == cur_term && *idx > m.index && *et == cur_term)
+                .cloned();
+            if let Some((mt, idx, et)) = lost {
+                ctx.v(
+                    "C06",
+                    "snapshot install discards entries the node acknowledged to the current leader",
+                    format!(
+                        "node {} (term {}) installs a snapshot at index {} although it acknowledged index {} (entry term {}) to the leader of term {}",
+                        id, cur_term, m.index, idx, et, mt
+                    ),
+                );
+            }
+        }
         if let Some(Some(f)) = self.ghost.cl_fold.get(m.index as usize) {
             let mut b = [0u8; 8];
             if s.data.len() == 8 {
@@ -1452,6 +1474,17 @@ impl World {
                         None => l.rn.raft.raft_log.term(idx).ok(),
                     }
                 };
+                if let Some(et) = vis_term {
+                    let g = &mut self.nodes[i].g;
+                    match g.acked.iter_mut().find(|(mt, _, _)| *mt == m.term) {
+                        Some(rec) => {
+                            if idx > rec.1 {
+                                *rec = (m.term, idx, et);
+                            }
+                        }
+                        None => g.acked.push((m.term, idx, et)),
+                    }
+                }
                 let disk = &self.nodes[i].disk;
                 let covered = disk.snap_index >= idx || (disk.last() >= idx && (vis_term.is_none() || disk.term_of(idx) == vis_term));
                 let cur_term = self.nodes[i].live.as_ref().unwrap().rn.raft.term;
